@@ -746,3 +746,116 @@ Lemma const_oracle_invariant {F} (feq : F -> F -> bool) (b : bool) :
   (forall ct vs, ends_eq feq (xy_exact feq) (MkLine ct vs) = true ->
                  (fun _ : lineT F => b) (MkLine ct (rev vs)) = (fun _ : lineT F => b) (MkLine ct vs)).
 Proof. split; reflexivity. Qed.
+
+(* ------------------------------------------------------------------ stale fields of points *)
+(* geom.NewPoint stores the Coordinates struct as given: the Z / M field of a point whose
+   coordinate type does not use it may hold anything (sequences have no such fields).  The
+   comparison never reads them: its answer is the answer on the value with those fields zeroed,
+   which is what the accessor dump of the correspondence run hands to the model. *)
+Lemma swap_remove_map {A B} (f : A -> B) i l : swap_remove i (map f l) = map f (swap_remove i l).
+Proof.
+  unfold swap_remove. rewrite <- map_rev. destruct (rev l) as [|x r] eqn:E; [reflexivity|].
+  cbn [map].
+  assert (R : removelast (map f l) = map f (removelast l)).
+  { clear. induction l as [|a [|b t] IH]; try reflexivity.
+    change (removelast (map f (a :: b :: t))) with (f a :: removelast (map f (b :: t))). rewrite IH. reflexivity. }
+  rewrite R, map_length. destruct (i =? length (removelast l)); [reflexivity|].
+  rewrite map_app, firstn_map. cbn [map]. rewrite skipn_map. reflexivity.
+Qed.
+
+Lemma vp_map {A B A' B'} (e : A' -> B' -> bool) (f : A -> A') (g : B -> B') l : forall m,
+  valid_permutation e (map f l) (map g m) = valid_permutation (fun a b => e (f a) (g b)) l m.
+Proof.
+  induction l as [|a r IH]; intros [|c cs]; try reflexivity.
+  change (map f (a :: r)) with (f a :: map f r). change (map g (c :: cs)) with (g c :: map g cs).
+  rewrite !vp_unfold.
+  change (g c :: map g cs) with (map g (c :: cs)). generalize (c :: cs) as ch. intros ch.
+  generalize 0 as i. generalize ch at 2 4 as rest.
+  induction rest as [|x rest IHr]; intros i; [reflexivity|].
+  simpl. rewrite swap_remove_map, IH, IHr. reflexivity.
+Qed.
+
+Lemma vp_ext {A B} (e e' : A -> B -> bool) l : forall m,
+  (forall a b, In a l -> e a b = e' a b) -> valid_permutation e l m = valid_permutation e' l m.
+Proof.
+  induction l as [|a r IH]; intros [|c cs] H; try reflexivity.
+  rewrite !vp_unfold. generalize (c :: cs) as ch. intros ch.
+  generalize 0 as i. generalize ch at 2 4 as rest.
+  induction rest as [|x rest IHr]; intros i; [reflexivity|].
+  simpl. rewrite (H a x) by (simpl; auto). rewrite (IH (swap_remove i ch)) by (intros; apply H; simpl; auto).
+  rewrite IHr. reflexivity.
+Qed.
+
+Lemma all2_map {A B A' B'} (e : A' -> B' -> bool) (f : A -> A') (g : B -> B') l : forall m,
+  all2 e (map f l) (map g m) = all2 (fun a b => e (f a) (g b)) l m.
+Proof. induction l as [|a r IH]; intros [|c cs]; simpl; try reflexivity. rewrite IH. reflexivity. Qed.
+
+Lemma all2_ext {A B} (e e' : A -> B -> bool) l : forall m,
+  (forall a b, In a l -> e a b = e' a b) -> all2 e l m = all2 e' l m.
+Proof.
+  induction l as [|a r IH]; intros [|c cs] H; simpl; try reflexivity.
+  rewrite (H a c) by (simpl; auto). rewrite IH by (intros; apply H; simpl; auto). reflexivity.
+Qed.
+
+Lemma structure_eq_map_ext {A} io (e : A -> A -> bool) (f : A -> A) l m :
+  (forall a b, In a l -> e (f a) (f b) = e a b) ->
+  structure_eq io e (map f l) (map f m) = structure_eq io e l m.
+Proof.
+  intros H. unfold structure_eq. destruct io.
+  - rewrite vp_map. apply vp_ext. exact H.
+  - rewrite all2_map. apply all2_ext. exact H.
+Qed.
+
+Section Unused.
+  Variable F : Type.
+  Variable feq : F -> F -> bool.
+  Variable xy_eq : vtx F -> vtx F -> bool.
+  Variable simple : lineT F -> bool.
+  Variable io : bool.
+  Variable zero : F.
+  (* the XY comparison reads X and Y only *)
+  Hypothesis xy_used : forall a b a' b',
+    vx a = vx a' -> vy a = vy a' -> vx b = vx b' -> vy b = vy b' -> xy_eq a b = xy_eq a' b'.
+
+  Notation sp := (norm_point (fun x : F => x) zero).
+  (* zero the unused Z / M fields of every point *)
+  Fixpoint strip_points (g : geomT F) : geomT F :=
+    match g with
+    | GPoint p => GPoint (sp p)
+    | GMPoint ct ps => GMPoint ct (map sp ps)
+    | GColl ct gs => GColl ct (map strip_points gs)
+    | _ => g
+    end.
+
+  Lemma coord_eq_strip c a c' b :
+    coord_eq feq xy_eq c (norm_vtx (fun x => x) zero c a) c' (norm_vtx (fun x => x) zero c' b)
+    = coord_eq feq xy_eq c a c' b.
+  Proof.
+    unfold coord_eq. rewrite (xy_used _ _ a b) by reflexivity.
+    destruct c, c'; simpl; try reflexivity; rewrite ?andb_false_r; reflexivity.
+  Qed.
+
+  Lemma point_eq_strip p q : point_eq feq xy_eq (sp p) (sp q) = point_eq feq xy_eq p q.
+  Proof. destruct p as [c [a|]], q as [c' [b|]]; unfold point_eq; simpl; auto using coord_eq_strip. Qed.
+  Lemma mpoint_member_eq_strip p q : mpoint_member_eq feq xy_eq (sp p) (sp q) = mpoint_member_eq feq xy_eq p q.
+  Proof. destruct p as [c [a|]], q as [c' [b|]]; unfold mpoint_member_eq; simpl; auto using coord_eq_strip. Qed.
+
+  Lemma geom_eq_strip g : forall h,
+    geom_eq feq xy_eq simple io (strip_points g) (strip_points h) = geom_eq feq xy_eq simple io g h.
+  Proof.
+    induction g as [p|l|p|ct ps|ct ls|ct ps|ct gs IH] using geomT_ind';
+      intros [q|k|q|ct' qs|ct' ks|ct' qs|ct' hs]; try reflexivity; simpl.
+    - apply point_eq_strip.
+    - rewrite !map_length. f_equal. apply structure_eq_map_ext. intros; apply mpoint_member_eq_strip.
+    - rewrite !map_length. f_equal. apply structure_eq_map_ext.
+      rewrite Forall_forall in IH. intros a b Ha. apply IH; assumption.
+  Qed.
+End Unused.
+
+Lemma xy_eq_bits_used tol a b a' b' :
+  vx a = vx a' -> vy a = vy a' -> vx b = vx b' -> vy b = vy b' -> xy_eq_bits tol a b = xy_eq_bits tol a' b'.
+Proof. intros X Y X' Y'. unfold xy_eq_bits, xy_exact. rewrite X, Y, X', Y'. reflexivity. Qed.
+
+Lemma ee_ignores_unused_lemma simple tol io g h :
+  exact_equals simple tol io (strip_points N 0%N g) (strip_points N 0%N h) = exact_equals simple tol io g h.
+Proof. unfold exact_equals. apply geom_eq_strip. apply xy_eq_bits_used. Qed.
